@@ -328,6 +328,18 @@ async def _run_script(ctx, inv, ev, script):
             ctx.rec('STOPB', bus=st[1])
             await b.stop(**kw)
             ctx.rec('STOPE', bus=st[1], t0=t0)
+        elif op == 'accessors_all':
+            # read a (completed) event through every public result accessor; what they return or raise is not the point here
+            e = ctx.events[st[1]]
+            for nm in ('event_result', 'event_results_list', 'event_results_by_handler_id', 'event_results_by_handler_name',
+                       'event_results_flat_dict', 'event_results_flat_list'):
+                try:
+                    kw = dict(raise_if_any=False, raise_if_none=False, timeout=1.0)
+                    if nm == 'event_results_flat_dict':
+                        kw['raise_if_conflicts'] = False
+                    await getattr(e, nm)(**kw)
+                except Exception as ex:  # noqa
+                    ctx.rec('ACC', ev=st[1], kw=nm, outcome='raise', exc_type=type(ex).__name__)
         elif op == 'accessor':
             _, label, kwargs = st
             e = ctx.events[label]
